@@ -121,6 +121,12 @@ func (e *Explorer) children(prefix []Choice, r *Result) [][]Choice {
 
 var embeddedVerified int
 
+var verifying bool
+
+// Verifying reports whether the body is being re-run only to check that a schedule determines the execution (a body
+// that keeps counters of its own skips them then).
+func Verifying() bool { return verifying }
+
 // verify re-runs the first executions of a search and every suspicious one to make sure the schedule
 // determines the execution. A mismatch is an infrastructure error, never a violation.
 func (e *Explorer) verify(prefix []Choice, r *Result) {
@@ -139,7 +145,9 @@ func (e *Explorer) verify(prefix []Choice, r *Result) {
 		embeddedVerified++
 	}
 	e.Stats.Determinism++
+	verifying = true
 	r2 := Run(r.Choices, e.Body, RunOpts{MaxSteps: e.MaxSteps, Races: e.Races})
+	verifying = false
 	if r2.TraceHash != r.TraceHash || r2.Status != r.Status || len(r2.Points) != len(r.Points) {
 		e.Stats.Infra = append(e.Stats.Infra, fmt.Sprintf("non-deterministic replay: hash %x/%x status %s/%s points %d/%d infra=%q",
 			r.TraceHash, r2.TraceHash, r.Status, r2.Status, len(r.Points), len(r2.Points), r2.Infra))
